@@ -810,8 +810,12 @@ impl Program {
         // result. Thus the true design size is not needed. Using this dummy avoids having
         // to plumb in the real design size into this function.
         let dummy_design_size = FixWord::ONE * 10;
-        let (_, errors) =
-            super::CompiledProgram::compile(self, dummy_design_size, kerns, entrypoints);
+        let (_, errors) = super::CompiledProgram::compile_tftopl_compatible(
+            self,
+            dummy_design_size,
+            kerns,
+            entrypoints,
+        );
         for err in errors {
             warnings.push(ValidationWarning::InfiniteLoop(err));
         }
